@@ -138,13 +138,18 @@ Fixpoint remove_all (t : label_table) (rs : list (list pop)) : result program :=
 Definition passes (rs : list (list pop)) : result program :=
   let '(fin, t) := finalize (strip rs) in remove_all t fin.
 
-(* utils.routine_op_offsets_are_ordered *)
-Fixpoint ordered_from (lastz : Z) (l : list pop) : bool :=
-  match l with
+(* utils.routine_op_offsets_are_ordered: every routine's offsets lie above those of the routines before it *)
+Definition real_offs (r : list pop) : list Z :=
+  filter (fun z => negb (Z.eqb z (-1))) (map pop_off r).
+Definition zmin (l : list Z) (d : Z) : Z := fold_right Z.min d l.
+Definition zmax (l : list Z) (d : Z) : Z := fold_right Z.max d l.
+Fixpoint ordered_from (lastz : Z) (rs : list (list pop)) : bool :=
+  match rs with
   | [] => true
-  | x :: r =>
-      let z := pop_off x in
-      if Z.eqb z (-1) then ordered_from z r   (* mirrors the code: last_offset := op.offset also for -1 *)
-      else if Z.leb z lastz then false else ordered_from z r
+  | r :: rest =>
+      match real_offs r with
+      | [] => ordered_from lastz rest
+      | z :: zs => if Z.leb (zmin zs z) lastz then false else ordered_from (zmax zs z) rest
+      end
   end.
-Definition ordered (rs : list (list pop)) : bool := ordered_from (-1)%Z (concat rs).
+Definition ordered (rs : list (list pop)) : bool := ordered_from (-1)%Z rs.
